@@ -94,6 +94,12 @@ fn main() {
     if cfg.emit {
         return;
     }
+    if cfg.flag("nojudge") {
+        // crash-oracle runs (C10): only the process outcome counts, monitor verdicts are dropped
+        rep.counters.add("monitor_verdicts_dropped", rep.violations.len() as u64);
+        rep.violations.clear();
+        rep.notes.clear();
+    }
     let totals = cb::kind_totals();
     for (i, n) in totals.iter().enumerate() {
         if *n > 0 {
